@@ -16,7 +16,7 @@ import (
 // closures inside GENERATOR bodies are the F_opt family, judged here against the
 // specification (C07 compares the two compiler stages instead).
 func C13(c *vf.Check) {
-	runFam(c, famSpec{id: "C13", fam: "by", name: "F_by", sizeQ: "3", sizeT: "4", tapeQ: "2", tapeT: "3", callsQ: 1, callsT: 1,
+	runFam(c, famSpec{id: "C13", fam: "by", name: "F_by", sizeQ: "3", sizeT: "3", tapeQ: "2", tapeT: "3", callsQ: 1, callsT: 1,
 		keys: fullKeys, opts: srcOpts{By: true, Opt: true}, by: true, lazyT: true, failIsViolation: true,
 		render: func(p []any) string { return (&srcRenderer{md: coMode}).byFunc("B", p) },
 		rule:   "F_by: every plain function up to MaxSize statements built from effects, a++, loops whose condition is a function VARIABLE reassigned in the body, a method value whose receiver variable is reassigned, wrappers func(ps){return f(ps)} around a package function / generic instance / builtin len / conversion, observed through r.E(id, expr, 0); each lives in a processed file next to generator code; compared: effect log, result, and the values of a constant, an initialised variable, a method of a local type, and the presence of a side-effect import; F_opt: the same closures inside generator bodies, compared with the specification per call",
@@ -26,6 +26,6 @@ func C13(c *vf.Check) {
 		render: func(p []any) string { return (&srcRenderer{md: coMode}).byFunc("B", p) }, rule: ""})
 	runFam(c, famSpec{id: "C13", fam: "optx", name: "F_optx", sizeQ: "2", sizeT: "3", tapeQ: "2", tapeT: "2", callsQ: 4, callsT: 5,
 		keys: fullKeys, opts: srcOpts{Opt: true}, failIsViolation: true, rule: ""})
-	runFam(c, famSpec{id: "C13", fam: "opt", name: "F_opt", sizeQ: "3", sizeT: "4", tapeQ: "2", tapeT: "2", callsQ: 5, callsT: 6,
+	runFam(c, famSpec{id: "C13", fam: "opt", name: "F_opt", sizeQ: "3", sizeT: "3", tapeQ: "2", tapeT: "3", callsQ: 5, callsT: 6,
 		keys: fullKeys, opts: srcOpts{Opt: true}, lazyT: true, failIsViolation: true, rule: ""})
 }
